@@ -382,7 +382,7 @@ fn bam_roundtrip(tier: &str) -> Result<String, String> {
     lines.push(("cigar".into(), rec("c", 0, "sq0", 10, 9, "1H2S3M1I2M4D1M5N1M1P1=1X2S3H", "*", 0, 0, &seq(14), &qual(14), "")));
     for l in [1u32, 15, 16, 255, 65535, 65536, 268435455] { lines.push(("cigar".into(), rec("c", 0, "sq0", 10, 9, &format!("1M{l}D1M{l}N1M"), "*", 0, 0, "ACG", "III", ""))); }
     // more than 65535 operations: the CG placeholder
-    for n in [65536usize, 65535, 65537] { let c: String = (0..n).map(|i| if i % 2 == 0 { "1M" } else { "1I" }).collect(); lines.push(("cigar-overflow".into(), rec("g", 0, "sq0", 10, 9, &c, "*", 0, 0, &seq(n), &qual(n), "NM:i:1"))); if tier != "thorough" { break; } }
+    for n in [65536usize, 65535, 65537] { let c: String = (0..n).map(|i| if i % 2 == 0 { "1M" } else { "1I" }).collect(); lines.push(("cigar-overflow".into(), rec("g", 0, "sq0", 10, 9, &c, "*", 0, 0, &seq(n), &qual(n), "NM:i:1"))); lines.push(("cigar-overflow-no-seq".into(), rec("h", 0, "sq0", 10, 9, &c, "*", 0, 0, "*", "*", ""))); if tier != "thorough" { break; } }
     // data fields
     for v in [-2147483648i64, -32769, -32768, -129, -128, -1, 0, 127, 128, 255, 256, 32767, 32768, 65535, 65536, 2147483647, 2147483648, 4294967295] { lines.push(("data".into(), rec("d", 0, "sq0", 1, 1, "1M", "*", 0, 0, "A", "I", &format!("XI:i:{v}\tRG:Z:rg0")))); }
     lines.push(("data".into(), rec("d", 0, "sq0", 1, 1, "1M", "*", 0, 0, "A", "I", "XA:A:!\tXZ:Z:\tXY:Z:a b\tXH:H:00FF\tXF:f:-1.5\tXB:B:c,-128,127\tXC:B:C,0,255\tXS:B:s,-32768,32767\tXT:B:S,0,65535\tXJ:B:i,-2147483648,2147483647\tXK:B:I,0,4294967295\tXG:B:f,0.25,-8\tXE:B:C")));
